@@ -66,6 +66,12 @@ class Library:
         if isinstance(blocks, Block):
             blocks = [blocks]
 
+        # Make sure that every block can be removed before removing any,
+        # such that a failing call leaves the library untouched.
+        remaining = list(self._blocks)
+        for block in blocks:
+            remaining.remove(block)
+
         for block in blocks:
             self._blocks.remove(block)
             if isinstance(block, Entry):
